@@ -179,32 +179,572 @@ def mechStep (c : Conn) (fn : HFun) (ud : Nat) (it : Item) (mask : Nat) : Conn :
 
 theorem Inv_mechStep {u ut : Option Nat} {c : Conn} (h : Inv u ut c) (cl : Clear u ut c) (s : Safe c)
     (fn : HFun) (ud : Nat) (m : Bytes) (t : Bool) (mask : Nat) (hS : isS fn = true)
-    (hi : m = b "PLAIN" → c.g.offeredMechs &&& strongerMask' = 0 ∧
+    (hi : c.state ≠ .disconnected → m = b "PLAIN" → c.g.offeredMechs &&& strongerMask' = 0 ∧
       (c.cert = true → c.g.offeredMechs &&& Gen.saslMaskExternal = 0))
-    (hp : c.saslSupport &&& Gen.saslMaskPlain ≠ 0 → NT c)
+    (hp : c.state ≠ .disconnected → c.saslSupport &&& Gen.saslMaskPlain ≠ 0 → NT c)
     (hm : (c.saslSupport &&& mask ≠ 0 ∧ ((Gen.saslMaskPlain ||| Gen.saslMaskAnonymous) ^^^ 0xFFFF) &&& mask = mask) ∨
       mask = Gen.saslMaskAnonymous ∨ mask = Gen.saslMaskPlain) :
     Inv u ut (mechStep c fn ud (.auth m t) mask) := by
   obtain ⟨f1, f2, f3⟩ := isS_not hS
   have h1 := Inv_addHandler h fn ud (some Gen.nsSasl) none none false (by simp [f1]) (by simp [f2])
-    (fun _ => ⟨s, cl.nF, cl.nTM, cl.nT, cl.nS, cl.nFr, cl.nLate, fun _ => hp⟩) (by simp [f3]) (by simp)
+    (fun _ => ⟨s, cl.nF, cl.nTM, cl.nT, cl.nS, cl.nFr, cl.nLate, hp⟩) (by simp [f3]) (by simp)
   have h2 := Inv_sendStanza_neg h1 (.auth m t)
     (fun _ => by have := s.gateC; unfold GateC at this; simpa using this) (by simpa using cl.en)
-    ⟨by simp, by simp, fun t' e => by
+    fun hc => ⟨by simp, by simp, fun t' e => by
       have e' : m = b "PLAIN" := by simpa using congrArg (fun i => match i with | Item.auth m _ => m | _ => []) e
-      simpa [curSnap] using hi e'⟩
+      have hl : c.state ≠ .disconnected := by
+        have : c.state = .connected := by simpa using hc
+        rw [this]; simp
+      simpa [curSnap] using hi hl e'⟩
   unfold mechStep
   refine h2.setMe ⟨fun x hx => ⟨x, hx, rfl, rfl, rfl, rfl⟩, fun x hx => ⟨x, hx, rfl, rfl⟩,
-    fun x hx => ⟨x, hx, rfl, rfl⟩, fun e he => he, by simp, by simp, by simp, by simp, by simp⟩ (by simp) ?_
-  have k := plain_nt_clear (c := c) h.me.k hp mask hm
-  refine ⟨fun _ => .inr ⟨?_, ?_, ?_, ?_⟩, fun _ => .inr ?_, ?_⟩
-  · exact (NoH_addHandler cl.nF f1).ofEq (by simp)
+    fun x hx => ⟨x, hx, rfl, rfl, rfl⟩, fun e he => he, by simp, by simp, by simp, by simp, by simp⟩ (by simp) ?_
+  refine ⟨fun _ => .inr ⟨?_, ?_, ?_, ?_⟩, fun hl => .inr ?_, ?_⟩
+  · exact (NoH_addHandler (ud := ud) (ns := some Gen.nsSasl) (name := none) (type := none) (user := false)
+      cl.nF f1).ofEq (by simp)
   · exact NoTM_same (by simp) cl.nTM
-  · exact (NoH_addHandler cl.nT f2).ofEq (by simp)
+  · exact (NoH_addHandler (ud := ud) (ns := some Gen.nsSasl) (name := none) (type := none) (user := false)
+      cl.nT f2).ofEq (by simp)
   · intro f; exact absurd (by unfold Fr at *; simpa using f) cl.nFr
   · intro hpl
+    have k := plain_nt_clear (c := c) h.me.k (hp (by simpa using hl)) mask hm
     exact (k (by simpa using hpl)).congr (by simp) (by simp) (by simp)
   · have := KMask_clear h.me.k (mask ^^^ 0xFFFF)
     unfold KMask at *; simpa using this
+
+/-- no handler of the late phase is installed -/
+def NoLateH (c : Conn) : Prop :=
+  (∀ h ∈ c.handlers, isLate h.fn = false) ∧ (∀ h ∈ c.idHandlers, isLate h.fn = false)
+
+theorem NoLateH.same {c c' : Conn} (n : NoLateH c) (e1 : c'.handlers = c.handlers)
+    (e2 : c'.idHandlers = c.idHandlers) : NoLateH c' := by
+  unfold NoLateH; rw [e1, e2]; exact n
+
+theorem NoLateH_of_not_late {c : Conn} (n : ¬LateC c) : NoLateH c := by
+  refine ⟨fun x hx => ?_, fun x hx => ?_⟩
+  · cases hl : isLate x.fn
+    · rfl
+    · exact absurd (.inl ⟨x, hx, hl⟩) n
+  · cases hl : isLate x.fn
+    · rfl
+    · exact absurd (.inr (.inl ⟨x, hx, hl⟩)) n
+
+theorem NoLateH_addHandler {c : Conn} (n : NoLateH c) (fn : HFun) (ud : Nat) (ns name type : Option Bytes)
+    (user : Bool) (hf : isLate fn = false) : NoLateH (addHandler c fn ud ns name type user) := by
+  refine ⟨fun x hx => ?_, by simpa using n.2⟩
+  rcases mem_addHandler hx with hx | ⟨hx, _⟩
+  · exact n.1 x hx
+  · subst hx; simpa using hf
+
+theorem NoLateH_addIdHandler {c : Conn} (n : NoLateH c) (fn : HFun) (id : Bytes)
+    (user : Bool) (hf : isLate fn = false) : NoLateH (addIdHandler c fn id user) := by
+  refine ⟨by simpa using n.1, fun x hx => ?_⟩
+  rcases mem_addIdHandler hx with hx | ⟨hx, _⟩
+  · exact n.2 x hx
+  · rw [hx]; exact hf
+
+/-- the STARTTLS request of `_auth` -/
+def startTlsStep (c : Conn) : Conn :=
+  let c1 := addHandler c (.sys .proceedTls) 0 (some Gen.nsTls) none none false
+  let c2 := sendStanza c1 .starttls .strophe
+  { c2 with tlsSupport := false }
+
+theorem Inv_startTlsStep {u ut : Option Nat} {c : Conn} (h : Inv u ut c) (cl : Clear u ut c)
+    (hs : c.secured = false) (hd : c.tlsDisabled = false) (hn : c.state ≠ .disconnected → NT c) :
+    Inv u ut (startTlsStep c) := by
+  have h1 := Inv_addHandler h (.sys .proceedTls) 0 (some Gen.nsTls) none none false (by simp [isF])
+    (fun _ => ⟨rfl, hs, cl.nF, cl.nTM, cl.nS, cl.nFr, cl.nLate, hn⟩) (by simp [isS]) (by simp [isLate]) (by simp)
+  have h2 := Inv_sendStanza_neg h1 .starttls (by simp [Item.authBearing]) (by simpa using cl.en)
+    (fun _ => ⟨fun _ => by simpa [curSnap] using hd, by simp, by simp⟩)
+  exact h2.same (by simp [SameAll, startTlsStep])
+
+@[simp] theorem startTlsStep_frame (c : Conn) :
+    same_cfg[c, startTlsStep c] ∧ same_tls[c, startTlsStep c] ∧ same_sm[c, startTlsStep c] ∧
+    same_p[c, startTlsStep c] ∧ (startTlsStep c).tlsSupport = false ∧
+    (startTlsStep c).idHandlers = c.idHandlers ∧ (startTlsStep c).tx = c.tx := by
+  simp [startTlsStep]
+
+@[simp] theorem authLegacyStep_frame (c : Conn) :
+    same_core[c, authLegacyStep c] ∧ (authLegacyStep c).handlers = c.handlers := by
+  unfold authLegacyStep
+  split
+  · simp
+  · split
+    · simp
+    · split <;> simp
+
+theorem Inv_authLegacyStep {u ut : Option Nat} {c : Conn} (h : Inv u ut c) (cl : Clear u ut c) (s : Safe c)
+    (ha : c.authLegacy = true) (hc : c.ctype = .client) : Inv u ut (authLegacyStep c) := by
+  unfold authLegacyStep
+  split
+  · exact Inv_xmppDisconnect h
+  · split
+    · exact Inv_xmppDisconnect h
+    · split
+      · exact Inv_xmppDisconnect h
+      · exact Inv_sendStanza_neg (Inv_addTimed (Inv_addIdHandler h (.sys .legacy) _ false rfl (by simp [isLate])
+          (by simp)) _ _ _ (by simp)) _
+          (fun _ => by have := s.gateC; unfold GateC at this; simpa using this) (by simpa using cl.en)
+          (fun _ => ⟨by simp, fun _ _ _ _ => by simp [curSnap, ha, hc], by simp⟩)
+
+theorem NoLateH_authLegacyStep {c : Conn} (n : NoLateH c) : NoLateH (authLegacyStep c) := by
+  have x : NoLateH (xmppDisconnect c) := n.same (by simp) (by simp)
+  unfold authLegacyStep
+  split
+  · exact x
+  · split
+    · exact x
+    · split
+      · exact x
+      · exact (NoLateH_addIdHandler n (.sys .legacy) (b "_xmpp_auth1") false rfl).same (by simp) (by simp)
+
+/-- the SCRAM attempt of `_auth` -/
+def scramStep (c : Conn) : Conn :=
+  match firstScram c.saslSupport with
+  | none => c
+  | some (ix, name, mask) =>
+    if (mask &&& scramPlusMask ≠ 0) && !isSecured c then xmppDisconnect c
+    else mechStep { c with nextUid := c.nextUid + 1 } (.sys (.scramChallenge c.nextUid ix)) (100 + c.nextUid)
+      (.auth name true) mask
+
+@[simp] theorem scramStep_frame (c : Conn) :
+    same_cfg[c, scramStep c] ∧ same_tls[c, scramStep c] ∧ same_sm[c, scramStep c] ∧ same_p[c, scramStep c] ∧
+    (scramStep c).tlsSupport = c.tlsSupport ∧ (scramStep c).idHandlers = c.idHandlers ∧
+    (scramStep c).g.offeredMechs = c.g.offeredMechs ∧ (scramStep c).tx = c.tx := by
+  unfold scramStep
+  split
+  · simp
+  · split <;> simp
+
+theorem Inv_scramStep {u ut : Option Nat} {c : Conn} (h : Inv u ut c) (cl : Clear u ut c) (s : Safe c)
+    (hp : c.state ≠ .disconnected → c.saslSupport &&& Gen.saslMaskPlain ≠ 0 → NT c) : Inv u ut (scramStep c) := by
+  unfold scramStep
+  split
+  · exact h
+  · rename_i ix name mask hf
+    obtain ⟨h1, h2⟩ := firstScram_some hf
+    obtain ⟨h3, h4⟩ := scramAlgs_facts _ h2
+    split
+    · exact Inv_xmppDisconnect h
+    · exact Inv_mechStep (c := { c with nextUid := c.nextUid + 1 }) (h.same (by simp [SameAll]))
+        (cl.same rfl rfl rfl rfl ⟨rfl, rfl⟩ rfl) (s.same rfl rfl rfl rfl) _ _ _ _ _ rfl
+        (fun _ e => absurd e h3) hp (.inl ⟨h1, h4⟩)
+
+theorem NoLateH_mechStep {c : Conn} (n : NoLateH c) (fn : HFun) (ud : Nat) (it : Item) (mask : Nat)
+    (hf : isLate fn = false) : NoLateH (mechStep c fn ud it mask) :=
+  (NoLateH_addHandler n fn ud (some Gen.nsSasl) none none false hf).same (by simp [mechStep]) (by simp [mechStep])
+
+theorem NoLateH_scramStep {c : Conn} (n : NoLateH c) : NoLateH (scramStep c) := by
+  unfold scramStep
+  split
+  · exact n
+  · split
+    · exact n.same (by simp) (by simp)
+    · exact NoLateH_mechStep (c := { c with nextUid := c.nextUid + 1 }) n _ _ _ _ rfl
+
+theorem auth_succ (c : Conn) (n : Nat) : auth c (n + 1) =
+    if c.tlsSupport then
+      if c.tlsNewFail then auth { c with tlsSupport := false } n else startTlsStep c
+    else if c.tlsMandatory && !isSecured c then connDisconnect c
+    else if anonJid c && c.saslSupport &&& Gen.saslMaskAnonymous ≠ 0 then
+      mechStep c (.sys (.saslResult (b "ANONYMOUS"))) 1 (.auth (b "ANONYMOUS") false) Gen.saslMaskAnonymous
+    else if c.saslSupport &&& Gen.saslMaskExternal ≠ 0 then
+      mechStep c (.sys (.saslResult (b "EXTERNAL"))) 2 (.auth (b "EXTERNAL") true) Gen.saslMaskExternal
+    else if anonJid c then xmppDisconnect c
+    else if c.pass.isNone then xmppDisconnect c
+    else if c.saslSupport &&& scramMaskAll ≠ 0 then scramStep c
+    else if c.saslSupport &&& Gen.saslMaskDigestmd5 ≠ 0 then
+      mechStep c (.sys .digestChallenge) 0 (.auth (b "DIGEST-MD5") false) Gen.saslMaskDigestmd5
+    else if c.saslSupport &&& Gen.saslMaskPlain ≠ 0 then
+      mechStep c (.sys (.saslResult (b "PLAIN"))) 3 (.auth (b "PLAIN") true) Gen.saslMaskPlain
+    else if c.ctype = .client && c.authLegacy then authLegacyStep c
+    else xmppDisconnect c := by
+  rfl
+
+theorem safe_of_gate {u : Option Nat} {c : Conn} (h : G u c)
+    (hg : ¬((c.tlsMandatory && !isSecured c) = true)) : Safe c := by
+  have g : Gate c := by
+    intro hm
+    rw [hm] at hg
+    unfold isSecured at hg
+    revert hg
+    cases c.secured <;> cases c.tlsFailed <;> cases c.hasTls <;> decide
+  have := h.nc
+  cases hs : c.state
+  · exact .inl hs
+  · exact absurd hs this
+  · exact .inr ⟨hs, g⟩
+
+theorem Inv_auth {u ut : Option Nat} : ∀ (n : Nat) (c : Conn), Inv u ut c → Clear u ut c →
+    (c.tlsSupport = true → c.secured = false ∧ c.tlsDisabled = false ∧ (c.state ≠ .disconnected → NT c)) →
+    (c.state ≠ .disconnected → c.saslSupport &&& Gen.saslMaskPlain ≠ 0 → NT c) → Inv u ut (auth c n)
+  | 0, c, h, _, _, _ => h
+  | n + 1, c, h, cl, hs, hp => by
+    rw [auth_succ]
+    split
+    · rename_i ht
+      split
+      · exact Inv_auth n _ (h.same (by simp [SameAll])) (cl.same rfl rfl rfl rfl ⟨rfl, rfl⟩ rfl) (by simp)
+          (fun l x => (hp l x).congr rfl rfl rfl)
+      · exact Inv_startTlsStep h cl (hs ht).1 (hs ht).2.1 (hs ht).2.2
+    · split
+      · exact Inv_connDisconnect h
+      · rename_i hg
+        have s := safe_of_gate h.g hg
+        split
+        · exact Inv_mechStep h cl s _ _ _ _ _ rfl (fun _ e => absurd e (by decide)) hp (.inr (.inl rfl))
+        · split
+          · rename_i he
+            exact Inv_mechStep h cl s _ _ _ _ _ rfl (fun _ e => absurd e (by decide)) hp
+              (.inl ⟨by simpa using he, by decide⟩)
+          · rename_i he
+            split
+            · exact Inv_xmppDisconnect h
+            · split
+              · exact Inv_xmppDisconnect h
+              · split
+                · exact Inv_scramStep h cl s hp
+                · rename_i hsc
+                  split
+                  · rename_i hd
+                    exact Inv_mechStep h cl s _ _ _ _ _ rfl (fun _ e => absurd e (by decide)) hp
+                      (.inl ⟨by simpa using hd, by decide⟩)
+                  · rename_i hd
+                    split
+                    · rename_i hpl
+                      exact Inv_mechStep h cl s _ _ _ _ _ rfl
+                        (fun l _ => plain_choice (hp l (by simpa using hpl)) (by simpa using hsc) (by simpa using hd)
+                          (by simpa using he)) hp (.inr (.inr rfl))
+                    · split
+                      · rename_i hl
+                        simp at hl
+                        exact Inv_authLegacyStep h cl s hl.2 hl.1
+                      · exact Inv_xmppDisconnect h
+
+theorem auth_sup_of_false : ∀ (n : Nat) (c : Conn), c.tlsSupport = false → (auth c n).tlsSupport = false
+  | 0, c, h => h
+  | n + 1, c, h => by
+    rw [auth_succ]
+    simp only [h, Bool.false_eq_true, if_false]
+    repeat' split
+    all_goals simp [h]
+
+theorem auth_sup (n : Nat) (c : Conn) : (auth c (n + 1)).tlsSupport = false := by
+  by_cases h : c.tlsSupport = true
+  · rw [auth_succ]
+    simp only [h, if_true]
+    split
+    · exact auth_sup_of_false n _ rfl
+    · simp
+  · exact auth_sup_of_false _ _ (by simpa using h)
+
+theorem auth_p : ∀ (n : Nat) (c : Conn), same_p[c, auth c n]
+  | 0, c => ⟨rfl, rfl⟩
+  | n + 1, c => by
+    rw [auth_succ]
+    split
+    · split
+      · exact auth_p n _
+      · simp
+    · repeat' split
+      all_goals simp
+
+theorem NoLateH_auth : ∀ (n : Nat) (c : Conn), NoLateH c → NoLateH (auth c n)
+  | 0, c, h => h
+  | n + 1, c, h => by
+    have x : NoLateH (xmppDisconnect c) := h.same (by simp) (by simp)
+    rw [auth_succ]
+    split
+    · split
+      · exact NoLateH_auth n _ (h.same rfl rfl)
+      · exact (NoLateH_addHandler h (.sys .proceedTls) 0 (some Gen.nsTls) none none false rfl).same
+          (by simp [startTlsStep]) (by simp [startTlsStep])
+    · split
+      · exact h.same (by simp) (by simp)
+      · split
+        · exact NoLateH_mechStep h _ _ _ _ rfl
+        · split
+          · exact NoLateH_mechStep h _ _ _ _ rfl
+          · split
+            · exact x
+            · split
+              · exact x
+              · split
+                · exact NoLateH_scramStep h
+                · split
+                  · exact NoLateH_mechStep h _ _ _ _ rfl
+                  · split
+                    · exact NoLateH_mechStep h _ _ _ _ rfl
+                    · split
+                      · exact NoLateH_authLegacyStep h
+                      · exact x
+
+/-! ### `_handle_features` -/
+
+theorem wList_false_ext : ∀ m ∈ wList false, Gen.saslMaskExternal &&& m = 0 := by decide
+
+theorem saslChild_mono (c : Conn) (t : Bytes) (m : Nat) (h : c.saslSupport &&& m ≠ 0) :
+    (saslChild c t).saslSupport &&& m ≠ 0 := by
+  unfold saslChild
+  repeat' split
+  all_goals first | exact h | exact or_and_ne_zero.2 (.inl h)
+
+@[simp] theorem saslChild_cert (c : Conn) (t : Bytes) : (saslChild c t).cert = c.cert := by
+  unfold saslChild; repeat' split
+  all_goals rfl
+
+theorem mechBit_saslChild (c : Conn) (t : Bytes) (m : Nat) (hm : m ∈ wList c.cert) (h : mechBit t &&& m ≠ 0) :
+    (saslChild c t).saslSupport &&& m ≠ 0 := by
+  have hk := wList_keep m (wList_sub _ m hm)
+  unfold mechBit at h
+  unfold saslChild
+  by_cases h1 : ciEq t (b "PLAIN") = true
+  · simp only [h1, if_true] at h; exact absurd hk.2.2.2.1 h
+  · simp only [h1, Bool.false_eq_true, if_false] at h ⊢
+    by_cases h2 : ciEq t (b "EXTERNAL") = true
+    · simp only [h2, if_true, Bool.true_and] at h ⊢
+      cases hc : c.cert
+      · rw [hc] at hm; exact absurd (wList_false_ext m hm) h
+      · simp only [if_true]; exact or_and_ne_zero.2 (.inr h)
+    · simp only [h2, Bool.false_eq_true, if_false, Bool.false_and] at h ⊢
+      by_cases h3 : ciEq t (b "DIGEST-MD5") = true
+      · simp only [h3, if_true] at h ⊢; exact or_and_ne_zero.2 (.inr h)
+      · simp only [h3, Bool.false_eq_true, if_false] at h ⊢
+        by_cases h4 : ciEq t (b "ANONYMOUS") = true
+        · simp only [h4, if_true] at h; exact absurd hk.2.2.2.2 h
+        · simp only [h4, Bool.false_eq_true, if_false] at h ⊢
+          split
+          · rename_i n mm hf
+            rw [hf] at h
+            exact or_and_ne_zero.2 (.inr h)
+          · rename_i hf
+            rw [hf] at h
+            simp at h
+
+theorem saslChild_fold (l : List Bytes) (c : Conn) (m : Nat) (hm : m ∈ wList c.cert)
+    (h : c.saslSupport &&& m ≠ 0 ∨ ∃ t ∈ l, mechBit t &&& m ≠ 0) :
+    (l.foldl saslChild c).saslSupport &&& m ≠ 0 := by
+  induction l generalizing c with
+  | nil =>
+    rcases h with h | ⟨t, ht, _⟩
+    · exact h
+    · cases ht
+  | cons x l ih =>
+    simp only [List.foldl_cons]
+    refine ih (saslChild c x) (by simpa using hm) ?_
+    rcases h with h | ⟨t, ht, hb⟩
+    · exact .inl (saslChild_mono c x m h)
+    · rcases List.mem_cons.1 ht with rfl | ht
+      · exact .inl (mechBit_saslChild c t m hm hb)
+      · exact .inr ⟨t, ht, hb⟩
+
+theorem offered_fold (l : List Bytes) (o m : Nat)
+    (h : (l.foldl (fun a t => a ||| mechBit t) o) &&& m ≠ 0) : o &&& m ≠ 0 ∨ ∃ t ∈ l, mechBit t &&& m ≠ 0 := by
+  induction l generalizing o with
+  | nil => exact .inl h
+  | cons x l ih =>
+    simp only [List.foldl_cons] at h
+    rcases ih _ h with h | ⟨t, ht, hb⟩
+    · rcases or_and_ne_zero.1 h with h | h
+      · exact .inl h
+      · exact .inr ⟨x, List.mem_cons_self .., h⟩
+    · exact .inr ⟨t, List.mem_cons_of_mem _ ht, hb⟩
+
+@[simp] theorem noteOffers_frame (c : Conn) (st : XTree) :
+    same_cfg[c, noteOffers c st] ∧ same_tls[c, noteOffers c st] ∧ same_io[c, noteOffers c st] ∧
+    same_h[c, noteOffers c st] ∧ same_sm[c, noteOffers c st] ∧ same_p[c, noteOffers c st] ∧
+    same_t[c, noteOffers c st] ∧
+    (noteOffers c st).tlsSupport = c.tlsSupport ∧ (noteOffers c st).saslSupport = c.saslSupport := by
+  simp [noteOffers]
+
+theorem noteOffers_offered (c : Conn) (st : XTree) : (noteOffers c st).g.offeredMechs =
+    match st.childByNameNs (b "mechanisms") Gen.nsSasl with
+    | some m => (childTexts m (b "mechanism")).foldl (fun a t => a ||| mechBit t) c.g.offeredMechs
+    | none => c.g.offeredMechs := by
+  unfold noteOffers
+  simp only
+  repeat' split
+  all_goals simp_all
+
+/-- the STARTTLS part of `_handle_features` -/
+def hfTls (c0 : Conn) (st : XTree) : Conn :=
+  if !c0.secured then
+    if !c0.tlsDisabled then
+      if (st.childByNameNs (b "starttls") Gen.nsTls).isSome then { c0 with tlsSupport := true } else c0
+    else { c0 with tlsSupport := false }
+  else c0
+
+/-- the `<mechanisms/>` part -/
+def hfSasl (c1 : Conn) (st : XTree) : Conn :=
+  match st.childByNameNs (b "mechanisms") Gen.nsSasl with
+  | some m => (childTexts m (b "mechanism")).foldl saslChild c1
+  | none => c1
+
+/-- PLAIN is dropped when anything better is on offer -/
+def hfMask (c2 : Conn) : Conn :=
+  if c2.saslSupport &&& ((Gen.saslMaskPlain ||| Gen.saslMaskAnonymous) ^^^ 0xFFFF) ≠ 0
+    then { c2 with saslSupport := c2.saslSupport &&& (Gen.saslMaskPlain ^^^ 0xFFFF) } else c2
+
+theorem handleFeatures_eq (c : Conn) (st : XTree) : handleFeatures c st =
+    authTop (hfMask (hfSasl (hfTls (delTimed (noteOffers c st) .missingFeatures) st) st)) := rfl
+
+@[simp] theorem hfTls_frame (c : Conn) (st : XTree) :
+    same_cfg[c, hfTls c st] ∧ same_tls[c, hfTls c st] ∧ same_io[c, hfTls c st] ∧
+    same_h[c, hfTls c st] ∧ same_sm[c, hfTls c st] ∧ same_p[c, hfTls c st] ∧ same_t[c, hfTls c st] ∧
+    (hfTls c st).g = c.g ∧ (hfTls c st).saslSupport = c.saslSupport := by
+  unfold hfTls; repeat' split
+  all_goals simp
+
+theorem hfTls_sup {c : Conn} {st : XTree} (h0 : c.tlsSupport = false) (h : (hfTls c st).tlsSupport = true) :
+    c.secured = false ∧ c.tlsDisabled = false := by
+  unfold hfTls at h
+  repeat' split at h
+  all_goals simp_all
+
+@[simp] theorem saslChild_frame (c : Conn) (t : Bytes) :
+    same_cfg[c, saslChild c t] ∧ same_tls[c, saslChild c t] ∧ same_io[c, saslChild c t] ∧
+    same_h[c, saslChild c t] ∧ same_sm[c, saslChild c t] ∧ same_p[c, saslChild c t] ∧ same_t[c, saslChild c t] ∧
+    (saslChild c t).g = c.g ∧ (saslChild c t).tlsSupport = c.tlsSupport := by
+  unfold saslChild; repeat' split
+  all_goals simp
+
+theorem saslChild_fold_frame (b : Conn) (l : List Bytes) (c : Conn)
+    (hb : same_cfg[b, c] ∧ same_tls[b, c] ∧ same_io[b, c] ∧ same_h[b, c] ∧ same_sm[b, c] ∧ same_p[b, c] ∧
+      same_t[b, c] ∧ c.g = b.g ∧ c.tlsSupport = b.tlsSupport) :
+    let d := l.foldl saslChild c
+    same_cfg[b, d] ∧ same_tls[b, d] ∧ same_io[b, d] ∧ same_h[b, d] ∧ same_sm[b, d] ∧ same_p[b, d] ∧
+      same_t[b, d] ∧ d.g = b.g ∧ d.tlsSupport = b.tlsSupport := by
+  induction l generalizing c with
+  | nil => simpa using hb
+  | cons e l ih =>
+    simp only [List.foldl_cons]
+    exact ih (saslChild c e) (by simpa using hb)
+
+@[simp] theorem hfSasl_frame (c : Conn) (st : XTree) :
+    same_cfg[c, hfSasl c st] ∧ same_tls[c, hfSasl c st] ∧ same_io[c, hfSasl c st] ∧
+    same_h[c, hfSasl c st] ∧ same_sm[c, hfSasl c st] ∧ same_p[c, hfSasl c st] ∧ same_t[c, hfSasl c st] ∧
+    (hfSasl c st).g = c.g ∧ (hfSasl c st).tlsSupport = c.tlsSupport := by
+  unfold hfSasl; split
+  · exact saslChild_fold_frame c _ c (by simp)
+  · simp
+
+@[simp] theorem hfMask_frame (c : Conn) :
+    same_cfg[c, hfMask c] ∧ same_tls[c, hfMask c] ∧ same_io[c, hfMask c] ∧
+    same_h[c, hfMask c] ∧ same_sm[c, hfMask c] ∧ same_p[c, hfMask c] ∧ same_t[c, hfMask c] ∧
+    (hfMask c).g = c.g ∧ (hfMask c).tlsSupport = c.tlsSupport := by
+  unfold hfMask; split <;> simp
+
+theorem hfMask_and (c : Conn) (m : Nat) (hm : m ∈ wList true) :
+    (hfMask c).saslSupport &&& m = c.saslSupport &&& m := by
+  unfold hfMask; split
+  · exact and_and_of_sub (wList_keep m hm).1
+  · rfl
+
+theorem KMask_hfMask (c : Conn) : KMask (hfMask c) := by
+  unfold hfMask; split
+  · intro _
+    show c.saslSupport &&& (Gen.saslMaskPlain ^^^ 0xFFFF) &&& Gen.saslMaskPlain = 0
+    rw [Nat.and_assoc]
+    have : (Gen.saslMaskPlain ^^^ 0xFFFF) &&& Gen.saslMaskPlain = 0 := by decide
+    rw [this, Nat.and_zero]
+  · rename_i h; intro h'; exact absurd h' h
+
+/-- after `_handle_features` has merged the offer, every better mechanism offered so far is (still) supported -/
+theorem NT_features (c : Conn) (st : XTree) (n : NT c) :
+    NT (hfMask (hfSasl (hfTls (delTimed (noteOffers c st) .missingFeatures) st) st)) := by
+  intro m hm ho
+  have hm' : m ∈ wList c.cert := by simpa using hm
+  rw [hfMask_and _ m (wList_sub _ m hm)]
+  have ho' : (noteOffers c st).g.offeredMechs &&& m ≠ 0 := by simpa using ho
+  rw [noteOffers_offered] at ho'
+  unfold hfSasl
+  split
+  · rename_i mm hmm
+    rw [hmm] at ho'
+    refine saslChild_fold _ _ m (by simpa using hm') ?_
+    rcases offered_fold _ _ _ ho' with h | h
+    · exact .inl (by simpa using n m hm' h)
+    · exact .inr h
+  · rename_i hmm
+    rw [hmm] at ho'
+    simpa using n m hm' ho'
+
+theorem isF_eq {f : HFun} (h : isF f = true) : f = .sys .features := by
+  cases f with
+  | userAll => simp [isF] at h
+  | sys k => cases k <;> simp_all [isF]
+
+theorem isT_eq {f : HFun} (h : isT f = true) : f = .sys .proceedTls := by
+  cases f with
+  | userAll => simp [isT] at h
+  | sys k => cases k <;> simp_all [isT]
+
+theorem not_NoH_none {p : HFun → Bool} {c : Conn} {x : Handler} (hx : x ∈ c.handlers) (hp : p x.fn = true)
+    (n : NoH none p c) : False := by
+  have := n x hx hp; simp at this
+
+/-- what the invariant says when the `features` handler is about to run -/
+theorem entry_F {c : Conn} (h : Inv none none c) {x : Handler} (hx : x ∈ c.handlers) (hf : isF x.fn = true) :
+    NoH (some x.uid) isF c ∧ NoH none isT c ∧ NoH none isS c ∧ ¬Fr c ∧ ¬LateC c ∧
+    (c.state ≠ .disconnected → NT c) := by
+  refine ⟨?_, ?_, ?_, ?_, ?_, ?_⟩
+  · intro y hy hp
+    rw [h.g.uniq x hx y hy (by simp [hf]) (by rw [isF_eq hf, isF_eq hp])]
+  · rcases h.ph.excl with ⟨a, _⟩ | ⟨⟨a, _⟩, _⟩ | ⟨⟨a, _⟩, _⟩
+    · exact a
+    · exact (not_NoH_none hx hf a).elim
+    · exact (not_NoH_none hx hf a).elim
+  · rcases h.ph.excl with ⟨_, b⟩ | ⟨⟨a, _⟩, _⟩ | ⟨⟨a, _⟩, _⟩
+    · exact b
+    · exact (not_NoH_none hx hf a).elim
+    · exact (not_NoH_none hx hf a).elim
+  · exact fun f => not_NoH_none hx hf (h.ph.e5 f).1
+  · exact fun l => not_NoH_none hx hf (h.ph.e6 l).1
+  · intro hl
+    rcases h.me.i1 hl with n | ⟨a, _⟩
+    · exact n
+    · exact (not_NoH_none hx hf a).elim
+
+theorem Inv_handleFeatures {c : Conn} (h : Inv none none c) (hs : c.tlsSupport = false) {x : Handler}
+    (hx : x ∈ c.handlers) (hf : isF x.fn = true) (st : XTree) :
+    Inv (some x.uid) none (handleFeatures c st) := by
+  obtain ⟨e1, e2, e3, e4, e5, e6⟩ := entry_F h hx hf
+  rw [handleFeatures_eq]
+  have hnt : c.state ≠ .disconnected →
+      NT (hfMask (hfSasl (hfTls (delTimed (noteOffers c st) .missingFeatures) st) st)) :=
+    fun hl => NT_features c st (e6 hl)
+  have hm : Mono c (hfMask (hfSasl (hfTls (delTimed (noteOffers c st) .missingFeatures) st) st)) := by
+    refine ⟨fun y hy => ⟨y, by simpa using hy, rfl, rfl, rfl, rfl⟩, fun y hy => ⟨y, by simpa using hy, rfl, rfl⟩,
+      ?_, fun e he => by simpa using he, by simp, by simp, by simp, by simp, by simp⟩
+    intro t ht
+    simp only [hfMask_frame, hfSasl_frame, hfTls_frame, delTimed_frame, noteOffers_frame, List.mem_filter] at ht
+    exact ⟨t, ht.1, rfl, rfl, rfl⟩
+  have h3 : Inv (some x.uid) none (hfMask (hfSasl (hfTls (delTimed (noteOffers c st) .missingFeatures) st) st)) := by
+    refine (h.weaken).setMe hm (by simp) ⟨fun hl => .inl (hnt (by simpa using hl)), fun _ => .inl ?_,
+      KMask_hfMask _⟩
+    exact (e3.weaken).ofEq (by simp)
+  refine Inv_auth 3 _ h3 ⟨e1.ofEq (by simp), ?_, (e2.weaken).ofEq (by simp), (e3.weaken).ofEq (by simp), ?_, ?_⟩
+    ?_ (fun hl _ => hnt (by simpa using hl))
+  · intro t ht hfn
+    simp only [hfMask_frame, hfSasl_frame, hfTls_frame, delTimed_frame, noteOffers_frame, List.mem_filter] at ht
+    simp [hfn] at ht
+  · unfold Fr at *; simpa using e4
+  · unfold LateC at *; simpa using e5
+  · intro ht
+    simp only [hfMask_frame, hfSasl_frame] at ht
+    have := hfTls_sup (c := delTimed (noteOffers c st) .missingFeatures) (st := st) (by simpa using hs) ht
+    exact ⟨by simpa using this.1, by simpa using this.2, fun hl => hnt (by simpa using hl)⟩
+
+theorem handleFeatures_sup (c : Conn) (st : XTree) : (handleFeatures c st).tlsSupport = false := by
+  rw [handleFeatures_eq]; exact auth_sup 2 _
+
+theorem handleFeatures_p (c : Conn) (st : XTree) : same_p[c, handleFeatures c st] := by
+  rw [handleFeatures_eq]
+  have := auth_p 3 (hfMask (hfSasl (hfTls (delTimed (noteOffers c st) .missingFeatures) st) st))
+  simpa [authTop] using this
+
+theorem NoLateH_handleFeatures {c : Conn} (n : NoLateH c) (st : XTree) : NoLateH (handleFeatures c st) := by
+  rw [handleFeatures_eq]
+  exact NoLateH_auth 3 _ (n.same (by simp) (by simp))
 
 end Strophe.Lemmas.ConnC02
